@@ -402,7 +402,7 @@ func diffSets(want, got []string) (missing, extra []string) {
 func init() {
 	Register(&Checker{
 		ID: "C18", Level: "exploration", Engine: "A",
-		Rule: "case = (grammar, layout, K map-order schedules); the real debug path (DebugFlags on, stdout captured) and DrawGrammar on the table of the SAME run; the listing (state numbers, items, GOTO lines, one lookahead line per reduction) and the DOT text (nodes, items, edges, reduce annotations, accept marking) are parsed and compared with the run's item sets, transitions, lookaheads and dense table. Numbering differs per schedule; the comparison is within one run. distinct_nontrivial = distinct grammars.",
+		Rule:     "case = (grammar, layout, K map-order schedules); the real debug path (DebugFlags on, stdout captured) and DrawGrammar on the table of the SAME run; the listing (state numbers, items, GOTO lines, one lookahead line per reduction) and the DOT text (nodes, items, edges, reduce annotations, accept marking) are parsed and compared with the run's item sets, transitions, lookaheads and dense table. Numbering differs per schedule; the comparison is within one run. distinct_nontrivial = distinct grammars.",
 		NumCases: func(ctx *Ctx) int { return autoCases(ctx, 2500, 30000) },
 		Gen:      genAutoCase(true, 2, 5), Exec: execC18,
 		Probes: []string{"listings_validated", "graphs_validated"},
